@@ -292,8 +292,9 @@ def main():
                                "models (MC_*.cfg), negative/sensitivity models (Neg_*.cfg) and total-verdict "
                                "trace specifications (*_Trace.tla) over logs recorded from /repo"},
             {"name": "apalache", "path": "/usr/local/bin/apalache-mc",
-             "serves_properties": ["C07"],
-             "kind_free_text": "inductive-invariant check of CountCache.tla (MC_CountCacheInd.tla: Init => IndInv at "
+             "serves_properties": ["C07", "C18"],
+             "kind_free_text": "inductive-invariant checks: merge_stats (StatsMergeInd.tla, unbounded integers, any number of "
+                               "batches) and CountCache.tla (MC_CountCacheInd.tla: Init => IndInv at "
                                "length 0, IndInv /\\ Next => IndInv' at length 1, arbitrary true-count function) and "
                                "its sensitivity run with a process-wide memo"},
         ],
